@@ -11,6 +11,7 @@ import (
 	"os/exec"
 	"path/filepath"
 	"strconv"
+	"strings"
 	"time"
 
 	wt "github.com/hnakamur/whispertool"
@@ -37,7 +38,7 @@ func (c20) Meta() fw.Meta {
 			"generate's random values are non-negative integers, so sums are exact",
 			"CLI instants are wall-clock (phase steered by waiting); all other phases come from the function-level driver",
 		},
-		Obligations: []string{"function_generations", "cli_generations", "slots_nonnan_checked", "covered_coarser_slots_checked", "partially_covered_coarser_slots", "newest_coarser_slot_fully_covered", "nfine_eq_ratio", "unaligned_instant", "aligned_instant", "nofill_all_zero", "existing_dest_refused", "instant_beyond_2_31", "cli_launches_across_second_boundary", "cli_generations_slowed_by_injected_delays", "exclusive_creation_races"},
+		Obligations: []string{"function_generations", "cli_generations", "slots_nonnan_checked", "covered_coarser_slots_checked", "partially_covered_coarser_slots", "newest_coarser_slot_fully_covered", "nfine_eq_ratio", "unaligned_instant", "aligned_instant", "nofill_all_zero", "existing_dest_refused", "instant_beyond_2_31", "cli_launches_across_second_boundary", "cli_generations_slowed_by_injected_delays", "exclusive_creation_races", "generations_with_stdout_on_a_full_device", "layout_list_reused_at_another_length"},
 		Workers:     12,
 	}
 }
@@ -224,6 +225,14 @@ func (c20) Run(c *fw.Ctx) {
 		fill := !(qi == 1 && c.Index%3 == 0)
 		path := filepath.Join(dir, fmt.Sprintf("gen-%d.wsp", qi))
 		aa := archiveInfoList(l)
+		if c.Index%2 == 1 && len(aa) >= 2 {
+			// the list was used before at another length (a shorter file generated from the same list)
+			if sdb, err := wt.Create(path+".short", aa[:len(aa)-1], wt.AggregationMethod(l.Method), l.Xff); err == nil {
+				sdb.Close()
+			}
+			os.Remove(path + ".short")
+			c.Count("layout_list_reused_at_another_length", 1)
+		}
 		db, err := wt.Create(path, aa, wt.AggregationMethod(l.Method), l.Xff)
 		if err != nil {
 			c.Violationf("create-failed", fw.J{"layout": l, "err": err.Error()}, "Create failed: %v", err)
@@ -362,6 +371,51 @@ func (c20) Run(c *fw.Ctx) {
 			return
 		}
 		c.Count("existing_dest_refused", 1)
+	}
+	// ---------------- (d) the text output (stdout) sits on a full device: whatever generate reports, a reported success
+	// means a complete file (C20's oracle); a failure is fine
+	if c.Index%8 == 1 {
+		path := filepath.Join(dir, "devfull-gen.wsp")
+		os.Remove(path)
+		fill := c.Index%16 == 1
+		gl := model.Layout{Archs: []model.Arch{{Step: 1, Points: uint32(300 + r.Intn(500))}, {Step: 60, Points: uint32(20 + r.Intn(30))}}, Method: 2, Xff: 0}
+		full, ferr := os.OpenFile("/dev/full", os.O_WRONLY, 0)
+		if ferr == nil {
+			cmd := exec.Command(cliBin(c), "generate", "-dest", path, "-agg-method", "sum", "-x-files-factor", "0", "-retentions", gl.RetentionString(), "-max", strconv.Itoa(max), fmt.Sprintf("-fill=%v", fill), "-text-out", "-")
+			cmd.Stdout = full
+			var se bytes.Buffer
+			cmd.Stderr = &se
+			t0 := time.Now().Unix()
+			err := cmd.Run()
+			t1 := time.Now().Unix()
+			full.Close()
+			c.Count("generations_with_stdout_on_a_full_device", 1)
+			if strings.Contains(se.String(), "panic:") || strings.Contains(se.String(), "goroutine 1 [") {
+				c.Violationf("panic", fw.J{"stderr": truncStr(se.String(), 2000)}, "generate panicked with its text output on a full device")
+				return
+			}
+			if err == nil {
+				// success reported: the file must be what generate promises, for one instant of the run
+				okAny, firstKey, firstMsg := false, "", ""
+				for cand := t0; cand <= t1 && !okAny; cand++ {
+					problem := ""
+					c20CheckR(c, path, gl, cand, max, fill, fw.J{}, func(key string, d fw.J, msg string) {
+						if problem == "" {
+							problem = key + ": " + msg
+							if firstKey == "" {
+								firstKey, firstMsg = key, msg
+							}
+						}
+					})
+					okAny = problem == ""
+				}
+				if !okAny {
+					c.Violationf("generate-success-without-complete-file:"+firstKey, fw.J{"layout": gl, "fill": fill, "stderr": truncStr(se.String(), 500), "first_problem": firstMsg},
+						"generate with its text output (stdout) on a full device exited 0, but the file is not a complete generated file: %s", firstMsg)
+					return
+				}
+			}
+		}
 	}
 	// ---------------- (c) exclusive creation must hold for the whole run: a competitor creating the destination while
 	// generate is still working (it is blocked writing its text output into a pipe nobody reads yet) must either be
